@@ -125,7 +125,10 @@ type E5Issue struct {
 }
 
 type e5Summary struct {
-	param map[int]string // param index -> "borrow" | "consume" | "iffnil" | "unknown"
+	// sentTo: channel fields a message parameter is sent on inside the function (so that a
+	// caller handing over a shared, Clone'd reference marks those queues as shared-fed)
+	sentTo map[int][]*types.Var
+	param  map[int]string // param index -> "borrow" | "consume" | "iffnil" | "unknown"
 }
 
 type e5Result struct {
@@ -189,6 +192,7 @@ type e5Ctx struct {
 	seen map[string]bool
 	exit []*world // worlds at returns with the returned error description
 	exitErr []string
+	paramSent map[*ssa.Parameter][]*types.Var
 	hdrStrip map[*ssa.Parameter]ssa.Instruction // where the parameter's header was re-sliced
 }
 
@@ -272,11 +276,32 @@ func (c *e5Ctx) release(w *world, o ssa.Value, in ssa.Instruction, how int, what
 		c.issue(kind, in, c.describe(o), fmt.Sprintf("%s of a message that was already %s at %s: the reference count goes below zero / the buffer is recycled while still in use", what, stName[s.st], s.where))
 		return
 	}
+	if how == stConsumed {
+		if par, isPar := o.(*ssa.Parameter); isPar {
+			if fv := c.sentField(in); fv != nil {
+				if c.paramSent == nil {
+					c.paramSent = map[*ssa.Parameter][]*types.Var{}
+				}
+				c.paramSent[par] = append(c.paramSent[par], fv)
+			}
+		}
+	}
 	if s.k > 0 {
 		s.k--
 		w.o[o] = s
 		if how == stConsumed {
 			c.noteSharedSend(in, what)
+			// handed to a private helper that queues it: those queues are shared-fed too
+			if cc := CallOf(in); cc != nil {
+				if sc := cc.StaticCallee(); sc != nil && c.p.moduleFunc(sc) && sc.Blocks != nil {
+					sum := c.r.summaryOf(c.p, sc)
+					for _, fvs := range sum.sentTo {
+						for _, fv := range fvs {
+							c.r.sharedFed[fv] = c.p.InstrPos(in)
+						}
+					}
+				}
+			}
 		}
 		return
 	}
@@ -307,6 +332,32 @@ func (c *e5Ctx) use(w *world, v ssa.Value, in ssa.Instruction, what string) {
 		}
 		c.issue("use-after-release", in, c.describe(o), fmt.Sprintf("%s after the message was %s at %s", what, stName[s.st], s.where))
 	}
+}
+
+// sentField: the channel field a send / select-send arm at in writes to.
+func (c *e5Ctx) sentField(in ssa.Instruction) *types.Var {
+	var ch ssa.Value
+	switch x := in.(type) {
+	case *ssa.Send:
+		ch = x.Chan
+	case *ssa.If:
+		if bo, ok := x.Cond.(*ssa.BinOp); ok {
+			if ex, ok := bo.X.(*ssa.Extract); ok {
+				if sel, ok := ex.Tuple.(*ssa.Select); ok {
+					if k, ok := ConstInt(bo.Y); ok && int(k) < len(sel.States) {
+						ch = sel.States[k].Chan
+					}
+				}
+			}
+		}
+	}
+	if ch == nil {
+		return nil
+	}
+	if fa := chanField(ch); fa != nil {
+		return FieldVar(fa)
+	}
+	return nil
 }
 
 // noteSharedSend records channel fields that receive a Clone'd (shared) message.
@@ -368,11 +419,12 @@ func (r *e5Result) summaryOf(p *Prog, fn *ssa.Function) *e5Summary {
 	r.inprog[fn] = true
 	ctx := p.e5Func(r, fn)
 	delete(r.inprog, fn)
-	sum := &e5Summary{param: map[int]string{}}
+	sum := &e5Summary{param: map[int]string{}, sentTo: map[int][]*types.Var{}}
 	for i, par := range fn.Params {
 		if !isMsgPtr(par.Type()) {
 			continue
 		}
+		sum.sentTo[i] = ctx.paramSent[par]
 		allLive, allGone := true, true
 		nilGone, errLive := true, true
 		n := 0
